@@ -1,9 +1,10 @@
-"""C10 -- restart on the same stores resumes without loss or regression (mirror side)."""
+"""C10 -- restart on the same stores resumes without loss or regression (mirror, state machine, whole engine)."""
+import json, os
 import vlib, mirrorcheck
 
 META = {
     "level": "model_checking",
-    "text": "Every store write of Mirror.tla is a separate crash point: a step may die after any prefix of its writes, and Restart is NewKernel's initialisation from the store variables; TLC checks that restart never fails (C10_RestartOK) and the chain/position invariants of C04 across crashes. The same crash points are replayed on a real Mirror: the recording stores are truncated to the first k writes of the interrupted step, a new Mirror is started on them, and the harness checks on the real objects that it starts, that positions are not behind what was durable, that every vote and proposed header persisted for the resumed rounds is present again (and, by C05's oracle, still verifies), and it continues with the rest of the behaviour. The state machine half of a restart is replayed too (StateMachine.tla with a crash after every macro step, edge cover + simulation): predicate ResumesAtDurablePosition; at every crash point of the mirror the durable committed chain must cover the durably recorded position (DurableChainCoversPosition).",
+    "text": "Every store write of Mirror.tla is a separate crash point: a step may die after any prefix of its writes, and Restart is NewKernel's initialisation from the store variables; TLC checks that restart never fails (C10_RestartOK) and the chain/position invariants of C04 across crashes. The same crash points are replayed on a real Mirror: the recording stores are truncated to the first k writes of the interrupted step, a new Mirror is started on them, and the harness checks on the real objects that it starts, that positions are not behind what was durable, that every vote and proposed header persisted for the resumed rounds is present again (and, by C05's oracle, still verifies), and it continues with the rest of the behaviour. The state machine half of a restart is replayed too (StateMachine.tla with a crash after every macro step, edge cover + simulation): predicate ResumesAtDurablePosition; at every crash point of the mirror the durable committed chain must cover the durably recorded position (DurableChainCoversPosition). The whole engine is restarted too: three real tmengine engines (the C03 cluster harness) finalize k heights, one node is stopped and started again with tmengine.New on the same stores; its state machine must enter a round (or ask for a catch-up finalization) again, its positions must not be behind, and the cluster must go on finalizing one chain.",
     "note": "Mirror/stores only; the state machine's restart (action store, finalization store) is exercised by C02. 'Same result as the crash-free run' is checked through state equality with the spec (whose crash-free and crashed runs are both explored), not by a twin execution. Bounded as C01.",
     "technique": "TLA+ spec (Mirror.tla) with a crash point after every store write + TLC exhaustive bounded check + crash/restart replay on the real Mirror over truncatable recording stores",
 }
@@ -30,5 +31,78 @@ def run(ctx):
     cov["state_machine_restart"] = scov
     cov["behaviours_replayed_on_real_code"] += scov["behaviours_replayed_on_real_code"]
     cov["evaluations"] += scov["evaluations"]
+    # the whole engine (mirror + state machine + consensus manager) restarted on the same stores: three real tmengine
+    # engines driven by the C03 cluster harness (checks/c03.py, notes/C03.md); after finalizing height k node n is stopped
+    # (cancel, Wait) and started again with tmengine.New on the same stores.  On the real engines: the restarted node's
+    # state machine must be running again (it waits in a timed step of the height it was in), its positions must not be
+    # behind what they were, and the cluster must go on finalizing the same chain.
+    import c03
+    cl = c03.Cluster(ctx)
+    cl.build()
+    ebehs = []
+    for k in (0, 1, 2, 3) if q else (0, 1, 2, 3, 4, 5):
+        for n in (1, 2, 3):
+            steps = ([{"op": "sync", "h": k}] if k > 0 else []) + [{"op": "restart", "n": n}, {"op": "sync", "h": k + 2}]
+            ebehs.append({"class": "c10", "powers": [1, 1, 1, 1], "maxH": k + 3, "maxR": 1, "propose": True, "steps": steps, "_k": k, "_n": n})
+    os.environ["VERIF_OBS"] = "1"
+    try:
+        erecs, edeaths = cl.replay(ebehs, "c10", procs=4)
+    finally:
+        os.environ.pop("VERIF_OBS", None)
+    byrun = {}
+    for r in erecs:
+        if "run" in r:
+            byrun.setdefault(r["run"], []).append(r)
+    # the recorded traces: after "restart n" the consensus strategy of node n must be entered again (EnterRound is the first
+    # thing a state machine does when it starts in a live round) or the node must ask its driver to finalize (catch-up)
+    tev = {}
+    for tp in cl.traces:
+        for e in vlib.read_ndjson(tp):
+            if "run" in e:
+                tev.setdefault(e["run"], []).append(e)
+    ok_runs, restarts_seen = 0, 0
+    for run, evs in sorted(tev.items()):
+        b = ebehs[run] if run < len(ebehs) else None
+        if b is None:
+            continue
+        evs.sort(key=lambda e: e.get("g", 0))
+        for idx, e in enumerate(evs):
+            if e.get("ev") != "restart":
+                continue
+            restarts_seen += 1
+            n = e.get("n")
+            alive = any(x.get("n") == n and x.get("ev") in ("enter", "finalize") for x in evs[idx + 1:])
+            if not alive:
+                ctx.violation("EngineRestartResumesStateMachine", "tmengine.New", "height-%d" % (b["_k"] + 1),
+                              "node %d was stopped after finalizing height %d and started again with tmengine.New on the same stores: for the rest of the run (%d recorded events) its state machine neither entered a round on the consensus strategy nor asked the driver to finalize -- the engine came back without a working state machine"
+                              % (n, b["_k"], len(evs) - idx - 1),
+                              replay_obj={"cluster_behaviour": {k: v for k, v in b.items() if not k.startswith("_")}})
+    for run, rs in sorted(byrun.items()):
+        b = ebehs[run] if run < len(ebehs) else None
+        if b is None:
+            continue
+        obs = [r for r in rs if r.get("kind") == "obs"]
+        before = None
+        for o in obs:
+            if o.get("op") == "restart" and before is not None:
+                node, was = o["nodes"][b["_n"] - 1], before["nodes"][b["_n"] - 1]
+                if (node.get("mh"), node.get("mr")) < (was.get("mh"), was.get("mr")) or len(node.get("chain") or []) < len(was.get("chain") or []):
+                    ctx.violation("NotBehindDurable", "tmengine.New", "engine",
+                                  "after the restart node %d is at %s/%s with %d committed headers; before it was at %s/%s with %d"
+                                  % (b["_n"], node.get("mh"), node.get("mr"), len(node.get("chain") or []), was.get("mh"), was.get("mr"), len(was.get("chain") or [])),
+                                  replay_obj={"cluster_behaviour": {k: v for k, v in b.items() if not k.startswith("_")}})
+            before = o
+        fin = [r for r in rs if r.get("kind") == "run"]
+        if fin and fin[0].get("status") == "ok":
+            ok_runs += 1
+            chains = list((fin[0].get("fin") or {}).values())
+            if chains and any(c != chains[0] for c in chains):
+                ctx.violation("SameChainAfterRestart", "cluster", "engine", "after a restart the nodes finalized different chains: %s" % json.dumps(fin[0].get("fin")),
+                              replay_obj={"cluster_behaviour": {k: v for k, v in b.items() if not k.startswith("_")}})
+    ctx.log("engine restarts: %d schedules, %d restarts observed, %d schedules ran to the end, %d child deaths" % (len(ebehs), restarts_seen, ok_runs, len(edeaths)))
+    if restarts_seen < len(ebehs) // 2:
+        raise vlib.Inconclusive("engine restart stage observed only %d restarts of %d" % (restarts_seen, len(ebehs)))
+    cov["engine_restart"] = {"schedules": len(ebehs), "restarts_observed": restarts_seen, "schedules_completed": ok_runs,
+                             "rule": "three real tmengine engines (C03 cluster harness); node n stopped after height k and started again with tmengine.New on the same stores"}
     rc = ctx.finish("model_checking", extra_cov=cov)
     return mirrorcheck.conclude(rc, mismatches + smis, inconcl + sinc)
